@@ -1,15 +1,19 @@
 """C17 FMM-mode operators equal dense-mode ones given an exact far-field evaluator."""
 from props import _assemblyb as ab
+from translators import fmm_indexing
 
 ID = "C17"
 PROP_FILE = "props/C17.v"
-COQ_TARGETS = ["props/C17.vo", "theories/AssemblyB/Corr.vo"]
+COQ_TARGETS = ["props/C17.vo", "theories/AssemblyB/Corr.vo", "gen/FmmIndexing.vo"]
 TRUSTED = [
     "hand model coq/theories/AssemblyB/FmmModel.v of the FMM glue (map_space_to_points, curl/RWG/div transforms, "
     "ExafmmInterface.evaluate with near-field correction, the evaluate_* closures), tie H: corresponded on every run "
     "against the real glue of bempp-cl running with the exafmm stand-in (harness/stubs/exafmm), "
     "fmm.dense_evaluation=True, the library's evaluator / near-field code executing as Python bodies on a surrogate "
     "4-component polynomial kernel (harness/c17_impl.py, bcommon.py); exact model evaluation in Coq, 1e-11*max",
+    "translators/fmm_indexing.py (tie T, ast, fails closed): which point-slot / storage indexing the current "
+    "fmm_assembler.py and space.py use is regenerated into coq/gen/FmmIndexing.v (current_version) and selects the "
+    "version of the model the correspondence evaluates; the theorems are stated for every version",
     "the exact evaluator contract: the far-field backend returns sum_s K_c(x_t,y_s) q_s for the same 4-component "
     "kernel as the near-field correction (true for dense_interaction_evaluator; only approximately for exafmm)",
     "element_neighbors(e) = {f : elements_adjacent(e,f)} is a hypothesis of the glue theorems (grid topology: C11); "
@@ -28,9 +32,11 @@ SRC = ["bempp_cl/api/fmm/fmm_assembler.py", "bempp_cl/api/fmm/exafmm.py", "bempp
 def regen(ctx):
     for s in SRC:
         ctx.src(s)
+    ctx.fmm_version = ctx.translate(fmm_indexing.fmm_indexing)
 
 
-HDR = ab.HEADER.replace("AssemblyB.Model AssemblyB.Corr.", "AssemblyB.Model AssemblyB.FmmModel AssemblyB.Corr.")
+HDR = ab.HEADER.replace("AssemblyB.Model AssemblyB.Corr.", "AssemblyB.Model AssemblyB.FmmModel AssemblyB.Corr.").replace(
+    "Import ListNotations.", "From BVgen Require Import FmmIndexing.\nImport ListNotations.")
 
 
 def _g4(c):
@@ -43,7 +49,7 @@ def _g4(c):
 def boundary_body(c):
     nr, nc = c["shape"]
     op = c["op"]
-    common = "CQops G4 gt gs st ss Et Es %s qd nb Sing" % ab.nat(c["nEs"])
+    common = "CQops current_version G4 gt gs st ss Et Es %s qd nb Sing" % ab.nat(c["nEs"])
     opt = True
     if op == "sl":
         glue = "glue_single_layer %s" % common
@@ -96,7 +102,7 @@ def boundary_body(c):
 
 def potential_body(c):
     op = c["op"]
-    common = "CQops G4 gs ss Es %s qd" % ab.nat(c["nEs"])
+    common = "CQops current_version G4 gs ss Es %s qd" % ab.nat(c["nEs"])
     lines = [
         "Definition gs := %s." % ab.geom(c["gs"]),
         "Definition ss := %s." % ab.space(c["trial"]),
@@ -142,8 +148,10 @@ def correspond(ctx):
                    lambda c: 1 if c["impl"] is None else len(c["impl"]))
     ab.judge_cases(ctx, res["potential"], outs, "c17p", "FMM-glue potential operator",
                    lambda c: 1 if c["impl"] is None else len(c["impl"]))
+    ctx.corr["histogram"] = {}
     raised = [c["name"] + ": " + c["error"] for c in res["boundary"] + res["potential"] if c["error"]]
-    ctx.corr["histogram"] = {"boundary_cases": [c["name"] for c in res["boundary"]],
+    ctx.corr["histogram"] = {"source_indexing_version": getattr(ctx, "fmm_version", None),
+                             "boundary_cases": [c["name"] for c in res["boundary"]],
                              "potential_cases": [c["name"] for c in res["potential"]],
                              "cases_where_the_implementation_raised (model must return None)": raised,
                              "harness_wall_s": round(res["wall"], 1)}
